@@ -516,8 +516,7 @@ def known_match(f):
 
 
 def write_replay(seed, program, schedule, failure, n):
-    os.makedirs(os.path.join(VERIF, "replays"), exist_ok=True)
-    path = os.path.join(VERIF, "replays", "C19-%d-%d.json" % (seed, n))
+    path = os.path.join(common.replay_dir(), "C19-%d-%d.json" % (seed, n))
     f = {k: v for k, v in failure.items() if k != "schedule"}
     with open(path, "w", encoding="utf-8") as fh:
         json.dump({"property": PROP, "seed": seed, "violation": f, "schedule": schedule, "program": program,
